@@ -134,12 +134,12 @@ impl Prop for C05 {
         "C05"
     }
     fn rule(&self) -> String {
-        "vocabulary: every documented name and alias (278) x every prefix spelling (none, 20 symbols, 20 long names) as one word; every ordered concatenation of two names; every concatenation of three names of length <=2; each word read through `1 <word>` and through str::parse::<Compound> (must agree). Accepted words must mean one of the word's (prefix? name)+ segmentations over the independent table; a bare documented name must be accepted with its own meaning (standard meaning where the documented one deviates). Base expansion: every documented unit under the powers 1, -1, 2, -2, 3 converted to its dimensions spelled in base units (`1 T^2 to kg^2*s^-4*A^-2`): exact scale^p, never refused. Unit expressions: all sequences of <=3 items (unit with optional ^n, n in {-2,-1,2,3}) over 6 units (thorough: 8 units, and 4 items over 4 units) x separators {juxtaposition, blank, *, /}, compared with the reference reading (/ inverts everything after it, ^n binds to the unit it follows). Non-trivial = the tool accepted the word/expression and it has a non-empty unit; distinct = distinct words/expressions".into()
+        "vocabulary: every documented name and alias (278) x every prefix spelling (none, 20 symbols, 20 long names) as one word; every ordered concatenation of two names; every concatenation of three names of length <=2; each word read through `1 <word>` and through str::parse::<Compound> (must agree). Accepted words must mean one of the word's (prefix? name)+ segmentations over the independent table; a bare documented name must be accepted with its own meaning (standard meaning where the documented one deviates). Base expansion: every documented unit under the powers 1, -1, 2, -2, 3 converted to its dimensions spelled in base units (`1 T^2 to kg^2*s^-4*A^-2`): exact scale^p, never refused. Unit expressions: all sequences of <=3 items (unit with optional ^n, n in {-2,-1,2,3}) over 6 units (thorough: 8 units, and 4 items over 4 units) x separators {juxtaposition, blank, *, /}, compared with the reference reading (/ inverts everything after it, ^n binds to the unit it follows). One unit under two prefixes (8 units x 9 prefix pairs x 12 shapes such as km/m, km^-1 m, s*km/m): refused or read as spelled. Non-trivial = the tool accepted the word/expression and it has a non-empty unit; distinct = distinct words/expressions".into()
     }
     fn assumptions(&self) -> Vec<String> {
         vec![
             "a multi-unit word the tool rejects although it has a valid reading is not judged (the statement constrains accepted words and bare names)".into(),
-            "expressions repeating one unit with two different prefixes are documented errors and not judged".into(),
+            "expressions repeating one unit with two different prefixes are documented errors: refusing them is not judged, accepting them is (the meaning must be the spelled one)".into(),
             "words containing characters the query lexer cannot carry (Ω, μ, g-force) are outside the quantifier".into(),
         ]
     }
@@ -180,6 +180,28 @@ impl Prop for C05 {
             let Some(n) = u.names.iter().find(|n| tables::typeable(n)) else { continue };
             for p in [1i64, -1, 2, -2, 3] {
                 sink(Case::new("base-expansion", format!("{n}|{p}")));
+            }
+        }
+        // one unit under two different prefixes in one expression: refused, or read as spelled
+        for u in ["m", "s", "g", "N", "J", "W", "V", "B"] {
+            for (a, b) in [("k", ""), ("", "k"), ("m", "k"), ("k", "m"), ("M", "k"), ("c", "m"), ("m", ""), ("", "c"), ("G", "M")] {
+                let (x, y) = (format!("{a}{u}"), format!("{b}{u}"));
+                for e in [
+                    format!("{x}/{y}"),
+                    format!("{x}*{y}"),
+                    format!("{x} {y}"),
+                    format!("{x}^-1 {y}"),
+                    format!("{x}^-1*{y}"),
+                    format!("{x}^2/{y}^2"),
+                    format!("{x}^2/{y}"),
+                    format!("{x}/{y}^2"),
+                    format!("s*{x}/{y}"),
+                    format!("{x}*kg/{y}"),
+                    format!("{x}/kg*{y}"),
+                    format!("{x}^3/{y}^2/{x}"),
+                ] {
+                    sink(Case::new("expr-two-prefixes", e));
+                }
             }
         }
         let pw = ["", "^-2", "^-1", "^2", "^3"];
@@ -319,9 +341,9 @@ fn check_expr(env: &mut Env, e: &str) -> Verdict {
         Some(f) => f,
         None => return Verdict::DontCare("no reference reading"),
     };
-    if units::mixed_prefix(&flat) {
-        return Verdict::DontCare("one unit with two prefixes");
-    }
+    // one unit under two prefixes: the tool documents a "mismatching prefix" error; refusing is fine,
+    // but an accepted expression must still mean what it spells
+    let mixed = units::mixed_prefix(&flat);
     let want = match units::flat_meaning(&flat) {
         Some(m) => m,
         None => return Verdict::DontCare("no reference meaning"),
@@ -345,6 +367,7 @@ fn check_expr(env: &mut Env, e: &str) -> Verdict {
     };
     match read_word(env, e) {
         Read::Disagree(why) => fw::fail(format!("expr-entry-points:{}", class()), why),
+        Read::Rejected if mixed => Verdict::DontCare("one unit with two prefixes, refused"),
         Read::Rejected => {
             // only judged when every word is a documented name or one
             // prefix+name: rejecting a juxtaposed multi-unit word is allowed
